@@ -68,7 +68,7 @@ def gen_case(rng):
         L = {"dims": [[{"b": splits[i][j], "s": steps[(i, j)]} for j in range(len(sp))] for i, sp in enumerate(splits)], "off": off}
         return f", #tsl.tsl<{txt}>", (lambda sizes, strides, off_: L), False
 
-    def plain_layout():
+    def plain_layout(padded_dyn_ok=False):
         r = rng.random()
         if r < 0.4:
             return "", (lambda sizes, strides, off_: {"dims": [[{"b": b, "s": s}] for b, s in zip(sizes, rowmajor(sizes))], "off": 0}), False
@@ -90,8 +90,11 @@ def gen_case(rng):
         if dyn_meta or any(dyn):
             # known finding (known/C05/dynamic_strides.json): dynamic strides are assumed to be those of an unpadded row-major
             # buffer; the generator therefore gives a `?` stride only that value
+            # -- that class needs a dynamic stride on BOTH sides (two `?` compare equal); when the other side is a static tiled layout
+            # the run-time pitch may be padded
             perm = list(range(rank))
-            pad = 0
+            if not padded_dyn_ok:
+                pad = 0
             # dynamic strides where they depend on dynamic sizes (or all dynamic), dynamic or static offset
             offtxt = "?" if rng.random() < 0.6 else str(rng.choice(off_choices))
             st_static = conc_strides(dims)
@@ -105,11 +108,17 @@ def gen_case(rng):
         return txt, (lambda sizes, strides, off_: {"dims": [[{"b": b, "s": s}] for b, s in zip(sizes, st)], "off": off}), False
 
     sides = []
-    for _ in range(2):
-        if use_tsl and rng.random() < 0.75:
-            sides.append(tsl_layout())
-        else:
-            sides.append(plain_layout())
+    if use_tsl and rng.random() < 0.3:
+        # one side with run-time (possibly padded) strides, the other a static tiled layout
+        sides = [plain_layout(padded_dyn_ok=True), tsl_layout()]
+        if rng.random() < 0.5:
+            sides.reverse()
+    else:
+        for _ in range(2):
+            if use_tsl and rng.random() < 0.75:
+                sides.append(tsl_layout())
+            else:
+                sides.append(plain_layout())
     shp = "x".join("?" if dy else str(d) for d, dy in zip(dims, dyn))
     types = [f"memref<{shp}x{el}{s[0]}>" for s in sides]
     text = f"""builtin.module {{
